@@ -84,7 +84,7 @@ def runAct (dflt : DV) : Option Act → M DV
 
 /- script stages: 0 common conversion, 1/2 union stages, 5 `to_dict`, 6 discriminator lookup,
    7 hooks (t: 0 pre, 1 post), 8 `!=`, 9 validator k -/
-def mkWorld (S : Script) (items : List DV) (pairs : List (DV × DV)) : World DV where
+def mkWorld (S : Script) (items : List DV) (pairs : List (DV × DV)) (warnError : Bool := false) : World DV where
   conv := fun t v =>
     if t ≥ 900 then pure (if t == 904 then .map pairs else .seq (t - 900) items)
     else runAct v (S.find 0 t v.tokOf)
@@ -95,9 +95,17 @@ def mkWorld (S : Script) (items : List DV) (pairs : List (DV × DV)) : World DV 
     | .seq k _ => t == 900 + k
     | .map _ => t == 904
     | _ => false
-  items := fun v => match v with | .seq _ xs => xs | _ => []
+  -- script stage 5, t 4: the container's own protocol (`__iter__` / `__len__` / `items()`) raises or never ends
+  readItems := fun v => match S.find 5 4 9999 with
+    | some (.raise p c) => raise (.one { perr := p, cls := c })
+    | some .div => divergeM
+    | _ => pure (match v with | .seq _ xs => xs | _ => [])
   indexable := fun v => match v with | .seq k _ => k == 0 || k == 1 | _ => false
-  pairs := fun v => match v with | .map kvs => kvs | _ => []
+  readPairs := fun v => match S.find 5 4 9999 with
+    | some (.raise p c) => raise (.one { perr := p, cls := c })
+    | some .div => divergeM
+    | _ => pure (match v with | .map kvs => kvs | _ => [])
+  warn := fun _ => if warnError then raise (builtinExc 120) else pure ()
   ofList := fun xs => .seq 0 xs
   ofTuple := fun xs => .seq 1 xs
   ofPairs := fun kvs => .map kvs
@@ -120,6 +128,7 @@ def mkData (S : Script) (W : World DV) (strKeys : Bool) : DataWorld DV where
   castKeys := fun v => runAct v (S.find 5 1 v.tokOf)
   readMapping := fun v => runAct v (S.find 5 2 v.tokOf)
   strKeyed := fun _ => strKeys
+  reservedKey := fun v => match v with | .map kvs => kvs.any (fun p => p.1.tokOf == 60) | _ => false
   unpack := fun v => match v with
     | .map kvs => kvs.map fun (k, x) => (k.tokOf, x)
     | _ => []
@@ -171,7 +180,8 @@ def mkLegacy (j : Json) : Legacy :=
     rewrap := bool! (fld j "rewrap"), mapInsert := bool! (fld j "mapInsert"),
     containsNarrow := bool! (fld j "containsNarrow"), allOfRaw := bool! (fld j "allOfRaw"),
     aliasCompare := bool! (fld j "aliasCompare"), discLookup := bool! (fld j "discLookup"),
-    nonStrKeys := bool! (fld j "nonStrKeys"), mapKeyStr := bool! (fld j "mapKeyStr") }
+    nonStrKeys := bool! (fld j "nonStrKeys"), mapKeyStr := bool! (fld j "mapKeyStr"),
+    rawIteration := bool! (fld j "rawIteration"), initNamedParams := bool! (fld j "initNamedParams") }
 
 def infoJson (i : Info) : Json :=
   Json.mkObj [("perr", Json.bool i.perr), ("cls", Json.num i.cls), ("site", Json.num i.site),
@@ -243,7 +253,7 @@ def handle (j : Json) : Json :=
   let items := (arr! (fld j "items")).map DV.ofJson
   let pairs := (arr! (fld j "pairs")).map fun p => match arr! p with
     | [k, v] => (DV.ofJson k, DV.ofJson v) | _ => (.nil, .nil)
-  let W := mkWorld S items pairs
+  let W := mkWorld S items pairs (bool! (fld j "warn_error"))
   match str! (fld j "kind") with
   | "rule" =>
     outJson DV.toJson (ruleParse W L o (mkRule j) (DV.ofJson (fld j "input")) {})
@@ -299,13 +309,18 @@ def handle (j : Json) : Json :=
         | [s, n, q] => .fin (bool! s) (bigNat n) (bigNat q - 1)
         | _ => .nan
     let k := match x with | .fin _ n q => loopK n q | _ => 0
-    match (tsNormalize (bool! (fld j "legacy_ts")) x {}).1 with
+    -- beyond the float range: an int raises OverflowError, a Decimal is refused by the finiteness guard
+    let xin : TsIn := match str! (fld j "huge"), x with
+      | "int", _ => .hugeInt
+      | "dec", .fin s n q => .hugeDec s n q
+      | _, x => .num x
+    match (tsNormalizeIn (bool! (fld j "legacy_ts")) xin {}).1 with
     | .ok _ => Json.mkObj [("out", "ok"), ("k", Json.num k)]
     | .raise e => Json.mkObj [("out", "raise"), ("info", infoJson e.info)]
     | .diverge => Json.mkObj [("out", "diverge")]
   | "iter" =>
     let f : Iter.Flags := { noExplicitCast := bool! (fld j "nec"), noDataLoss := bool! (fld j "ndl"),
-                            legacyDatetime := bool! (fld j "legacy_dt") }
+                            legacyDatetime := bool! (fld j "legacy_dt"), legacyAttemptFrom := bool! (fld j "legacy_af") }
     let k : Iter.InKind := match str! (fld j "in_kind") with
       | "sized" => .sized (nat! (fld j "n")) | "lazy" => .lazy | "iterable" => .iterable
       | "getitem" => .getitem | "text" => .text | _ => .scalar
